@@ -44,6 +44,8 @@ def _cases(draw):
     style = draw(xmlw.styles())
     has_ext = any(lx.get('extends') for lx in res['lexicons'])
     targets = ['1.1', '1.2', '1.3'] if has_ext else list(gen.VERSIONS)
+    if _has_preserved(res):
+        targets = targets + ['1.3', '1.3', '1.3']     # the one version that can express it
     return {'resource': res, 'style': style, 'target': draw(st.sampled_from(targets))}
 
 
